@@ -1330,6 +1330,28 @@ func c14Gen(r *rand.Rand, cfg c14Cfg) *c14Gram {
 				al := g.NTs[n].Alts
 				g.NTs[n].Alts = append(al[:len(al)-1:len(al)-1], alt, al[len(al)-1])
 				g.Feat["predicate on a copied body"] = true
+				// the enclosing nonterminal is entered with BOTH values of a parameter it shares (by name) with the target
+				if n >= nIn && !plain[0] && r.Intn(5) != 0 {
+					for _, p := range g.NTs[t].Params {
+						for _, q := range g.NTs[n].Params {
+							if g.Params[q].Name != g.Params[p].Name {
+								continue
+							}
+							for v := 0; v < 2; v++ {
+								var args []c14Arg
+								for _, x := range mkArgs(0, n) {
+									if x.Param != q {
+										args = append(args, x)
+									}
+								}
+								args = append(args, c14Arg{Param: q, X: v, Style: r.Intn(2)})
+								in := c14Alt{RHS: []c14Sym{{Term: 1 + r.Intn(g.NT-1)}, {NT: n, Args: args}}}
+								ia := g.NTs[0].Alts
+								g.NTs[0].Alts = append(ia[:len(ia)-1:len(ia)-1], in, ia[len(ia)-1])
+							}
+						}
+					}
+				}
 			}
 			for ai := range g.NTs[n].Alts {
 				a := &g.NTs[n].Alts[ai]
@@ -1569,10 +1591,16 @@ func c14GenLAFam(r *rand.Rand) *c14Gram {
 		}
 		return out
 	}
+	craftV := -1 // the flag pinned first in the crafted pair of the middle nonterminal right under the top
 	for m := nMid - 1; m >= 0; m-- {
 		n := mid0 + m
 		nt := c14NT{Name: fmt.Sprintf("N%d", n)}
-		for a, na := 0, 2+r.Intn(2); a < na; a++ {
+		craft := r.Intn(5) < 3
+		na := 2 + r.Intn(2)
+		if craft {
+			na = r.Intn(2)
+		}
+		for a := 0; a < na; a++ {
 			t := leaf0 + r.Intn(nLeaf)
 			if m+1 < nMid && r.Intn(3) == 0 {
 				t = mid0 + m + 1
@@ -1591,7 +1619,7 @@ func c14GenLAFam(r *rand.Rand) *c14Gram {
 		}
 		// two leading references that pin DIFFERENT flags, the second target also accepting the first flag from its
 		// context: `C<~V> … | D<+W>` (both orders)
-		if r.Intn(5) < 3 {
+		if craft {
 			v := r.Intn(nF)
 			wf := (v + 1 + r.Intn(nF-1)) % nF
 			var t1s, t2s []int
@@ -1622,6 +1650,9 @@ func c14GenLAFam(r *rand.Rand) *c14Gram {
 				}
 				uses[n] = union(uses[n], unpinned(uses[l1.NT], l1.Args))
 				uses[n] = union(uses[n], unpinned(uses[l2.NT], l2.Args))
+				if m == 0 {
+					craftV = v
+				}
 			}
 		}
 		g.NTs[n] = nt
@@ -1632,12 +1663,15 @@ func c14GenLAFam(r *rand.Rand) *c14Gram {
 		for m := 0; m < nMid; m++ {
 			if m == 0 || r.Intn(2) == 0 {
 				lead := c14Sym{NT: mid0 + m, Args: pin(uses[mid0+m], 0.15)}
+				if m == 0 && craftV >= 0 && r.Intn(10) != 0 {
+					lead.Args = nil
+				}
 				nt.Alts = append(nt.Alts, c14Alt{RHS: []c14Sym{lead}})
 				uses[1] = union(uses[1], unpinned(uses[mid0+m], lead.Args))
 			}
 		}
 		for f := 0; f < nF; f++ { // the top looks at flags itself: it accepts them whatever its leading references pin
-			if r.Intn(5) < 3 {
+			if r.Intn(5) < 3 || (f == craftV && r.Intn(10) != 0) {
 				uses[1] = union(uses[1], []int{f})
 				nt.Alts = append(nt.Alts, c14Alt{Pred: &c14Pred{Op: 'E', P: f, V: 1}, PredText: g.Params[f].Name, RHS: []c14Sym{term()}})
 			}
@@ -1649,6 +1683,9 @@ func c14GenLAFam(r *rand.Rand) *c14Gram {
 		nt := c14NT{Name: "N0"}
 		for a, na := 0, 2+r.Intn(2); a < na; a++ {
 			nt.Alts = append(nt.Alts, c14Alt{RHS: []c14Sym{term(), {NT: 1, Args: pin(uses[1], 0.6)}}})
+		}
+		if craftV >= 0 && c14Has(uses[1], craftV) && r.Intn(10) != 0 {
+			nt.Alts = append(nt.Alts, c14Alt{RHS: []c14Sym{term(), {NT: 1, Args: []c14Arg{{Param: craftV, X: 1, Style: r.Intn(2)}}}}})
 		}
 		for n := 2; n < nNT; n++ {
 			for _, f := range uses[n] {
@@ -1999,7 +2036,7 @@ func c14(c *Ctx) {
 				c.Violate("the compiler exits (log.Fatal) on a grammar with lookahead predicates on templated targets", c14OneLine(text))
 				continue
 			case !strings.HasPrefix(ans, "ok "):
-				c.Count("predicate family: status err"); if os.Getenv("C14_ERRDBG") != "" { c.Count("PERR " + ans[:min(len(ans), 90)]) }
+				c.Count("predicate family: status err")
 				continue
 			}
 			pproto, la := c14SplitLA(strings.TrimPrefix(ans, "ok "))
@@ -2040,9 +2077,6 @@ func c14(c *Ctx) {
 			continue
 		case strings.HasPrefix(ans, "err"):
 			c.Count("status err")
-			if os.Getenv("C14_ERRDBG") != "" && g.Feat["lookahead-flag family"] {
-				c.Count("LERR " + ans[:min(len(ans), 90)])
-			}
 			c.Case("inst "+quirks+" "+src+" :: err", "match", "")
 			continue
 		case !strings.HasPrefix(ans, "ok "):
